@@ -93,13 +93,14 @@ STUBS = [
 ]
 ASSUMPTIONS = [
     "mask bits are explored by forking (one path per mask); pixel values, kernel values and pixel scales are solver variables (scales > 0)",
-    "pixel-scale obligations carry the library's own 1e-8 isotropy tolerance (Mask.pixel_scale_header treats scales closer than 1e-8 as equal); "
-    "decision margin: scale pairs with 5e-9 < |sy - sx| < 2e-8 (rounding distance of that test) are outside the claim",
+    "pixel scales are exactly isotropic or clearly anisotropic (|sy - sx| >= 2e-8): pairs in between are outside the claim (below 1e-8 the library "
+    "writes one PIXSCALE card by design, next to 1e-8 its isotropy test sits at rounding distance); all pixel-scale obligations are exact equalities, "
+    "replays compare scales relative to their magnitude (1e-12)",
 ]
 EXPLORER_OPTS = {"max_paths": 140000, "timeout_ms": 20000}
 BUDGET_S = {"quick": 600, "thorough": 2300}
 
-SCALE_TOL = 1e-8
+SCALE_REL_TOL = 1e-12      # replay: header scales relative to their magnitude (astropy cards carry 16 significant digits)
 _STUBBED = [False]
 
 
@@ -403,6 +404,15 @@ FITS = FitsFacade()
 OSF = OSFacade()
 
 
+def _round(x, n=None):
+    """round(x, n) of a symbolic real: nearest multiple of 10^-n (ties, a null set, go up); everything else as the shim does"""
+    if n is not None and V.is_sym(x) and isinstance(n, int):
+        scale = z3.RealVal(10 ** n) if n >= 0 else z3.RealVal(1) / z3.RealVal(10 ** (-n))
+        k = z3.ToInt(V.to_real_term(x) * scale + z3.RealVal("1/2"))
+        return V.SymReal(z3.ToReal(k) / scale)
+    return shim.s_round(x, n)
+
+
 def _float_type(*a):
     if len(a) == 1 and isinstance(a[0], V.SymReal):
         return shim.SFloat
@@ -430,6 +440,8 @@ def POST_INSTALL():
                 d["path"] = OSF.path
             if d.get("Path") is pathlib.Path:
                 d["Path"] = VPath
+            if d.get("round") is shim.s_round:
+                d["round"] = _round
     # header values are Python floats in reality: `type(pixel_scales) is float` must hold for a symbolic real
     for name in ("autoarray.geometry.geometry_util", "autoarray.mask.mask_1d"):
         d = sys.modules[name].__dict__
@@ -1057,10 +1069,12 @@ def _family_mask(name, H, W):
 
 
 def _margin(ctx, sy, sx):
-    """decision margin for the library's isotropy test |sy - sx| > 1e-8 (exact reals and float64 may disagree only at the boundary)"""
+    """pixel scales are either exactly isotropic or clearly anisotropic (|sy - sx| >= 2e-8). In between the library's own isotropy test
+    |sy - sx| > 1e-8 either drops the x scale by design (<= 1e-8) or sits at rounding distance of the boundary: outside the claim.
+    With this, every pixel-scale obligation is an EXACT equality."""
     d = sy.t - sx.t
     ad = z3.If(d >= 0, d, -d)
-    ctx.assume(z3.Or(ad <= V.rval(5e-9), ad >= V.rval(2e-8)))
+    ctx.assume(z3.Or(d == 0, ad >= V.rval(2e-8)))
 
 
 def case_2d(ctx, H, W, flip, masks="all", full=True):
@@ -1079,8 +1093,7 @@ def case_2d(ctx, H, W, flip, masks="all", full=True):
     if "aniso-pixel-scale" in _known_ids():
         for key in SCALE_KEYS_2D:
             known[key] = {"aniso-pixel-scale": sy.t != sx.t}
-    hx.run_body(ctx, body_2d, inputs, {"H": H, "W": W, "flip": flip, "full": full}, validate_every=16,
-                tol={k: SCALE_TOL for k in SCALE_KEYS_2D}, known=known or None)
+    hx.run_body(ctx, body_2d, inputs, {"H": H, "W": W, "flip": flip, "full": full}, validate_every=16, known=known or None)
 
 
 TINY = 2.0 ** -30
@@ -1112,8 +1125,9 @@ def case_tiny(ctx, H, W, flip, masks="checker"):
     sy, sx = V.real("sy"), V.real("sx")
     ctx.assume(z3.And(sy.t > 0, sx.t > 0))
     _margin(ctx, sy, sx)
+    ctx.assume(z3.And(sy.t <= V.rval(2.0 ** -20), sx.t <= V.rval(2.0 ** -20)))       # small-scale regime as well
     inputs = {"mask": mask, "v": _tiny_values(ctx, "nv", (H, W)), "k": _tiny_values(ctx, "nk", (H, W)), "scales": [sy, sx]}
-    hx.run_body(ctx, body_2d, inputs, {"H": H, "W": W, "flip": flip, "full": False}, validate_every=1, tol={k: SCALE_TOL for k in SCALE_KEYS_2D})
+    hx.run_body(ctx, body_2d, inputs, {"H": H, "W": W, "flip": flip, "full": False}, validate_every=1)
 
 
 def case_tiny_1d(ctx, N, flip):
@@ -1121,10 +1135,10 @@ def case_tiny_1d(ctx, N, flip):
     mask[0] = N > 1
     ctx.set_case(mask=mask.tolist())
     s = V.real("s")
-    ctx.assume(s.t > 0)
+    ctx.assume(z3.And(s.t > 0, s.t <= V.rval(2.0 ** -20)))
     inputs = {"mask": mask, "v": _tiny_values(ctx, "nv", (N,)), "scale": s}
     keys = ["arr1d.file.header_scale", "arr1d.hdu.pixel_scales", "mask1d.file.header_scale", "mask1d.hdu.pixel_scales"]
-    hx.run_body(ctx, body_1d, inputs, {"N": N, "flip": flip}, validate_every=1, tol={k: SCALE_TOL for k in keys})
+    hx.run_body(ctx, body_1d, inputs, {"N": N, "flip": flip}, validate_every=1)
 
 
 def case_1d(ctx, N, flip):
@@ -1141,7 +1155,7 @@ def case_1d(ctx, N, flip):
         e = [z3.RealVal(0) if mask[i] else v[i].t for i in range(N)]
         known["arr1d.hdu.native"] = {"array1d-hdu-flip": z3.Or(*[e[i] != e[N - 1 - i] for i in range(N)]) if N > 1 else z3.BoolVal(False)}
     keys = ["arr1d.file.header_scale", "arr1d.hdu.pixel_scales", "mask1d.file.header_scale", "mask1d.hdu.pixel_scales"]
-    hx.run_body(ctx, body_1d, inputs, {"N": N, "flip": flip}, validate_every=4, tol={k: SCALE_TOL for k in keys}, known=known or None)
+    hx.run_body(ctx, body_1d, inputs, {"N": N, "flip": flip}, validate_every=4, known=known or None)
 
 
 def case_derived(ctx, H, W, flip, dims=2, masks="all"):
@@ -1165,7 +1179,7 @@ def case_derived(ctx, H, W, flip, dims=2, masks="all"):
             region = z3.Or(*terms) if terms else z3.BoolVal(False)
             for w in ("file.native", "file.stored", "hdu.native"):
                 known["1d.sn1.%s.%s" % (opn, w)] = {"array1d-native-unmasked": region}
-    hx.run_body(ctx, body_derived, inputs, {"H": H, "W": W, "flip": flip, "dims": dims}, validate_every=16, tol={k: SCALE_TOL for k in keys},
+    hx.run_body(ctx, body_derived, inputs, {"H": H, "W": W, "flip": flip, "dims": dims}, validate_every=16,
                 known=known or None)
 
 
@@ -1195,8 +1209,7 @@ def case_fs(ctx, H, W, H2, W2, flip, writer, kind):
     if kind == "bare" and "bare-file-name" in _known_ids():
         known = {key: {"bare-file-name": z3.BoolVal(True)} for key in FS_STEPS}
     hx.run_body(ctx, body_fs, inputs, {"H": H, "W": W, "H2": H2, "W2": W2, "flip": flip, "writer": writer, "kind": kind},
-                validate_every=4 if writer in ("mask2d", "mask1d") else 1,
-                tol={k: SCALE_TOL for k in FS_STEPS if k.endswith("scale")}, known=known or None)
+                validate_every=4 if writer in ("mask2d", "mask1d") else 1, known=known or None)
 
 
 def case_hdu_index(ctx, H, W, flip):
@@ -1204,7 +1217,7 @@ def case_hdu_index(ctx, H, W, flip):
     ctx.assume(z3.And(*[x.t > 0 for x in sc]))
     inputs = {"d": V.real_array("d", (3, H, W)), "sc": sc}
     keys = ["%s.hdu%d.%s" % (o, j, w) for o in ("arr", "ker", "arr1d") for j in range(3) for w in ("header_hdu_scale", "header_sci_scale")]
-    hx.run_body(ctx, body_hdu_index, inputs, {"H": H, "W": W, "flip": flip}, validate_every=1, tol={k: SCALE_TOL for k in keys})
+    hx.run_body(ctx, body_hdu_index, inputs, {"H": H, "W": W, "flip": flip}, validate_every=1)
 
 
 def case_imaging(ctx, H, W, flip):
@@ -1216,7 +1229,7 @@ def case_imaging(ctx, H, W, flip):
     # Imaging re-normalises its PSF by design (use_normalized_psf=True): the round trip is the identity on normalised kernels
     ctx.assume(z3.Sum(*[x.t for x in k.reshape(-1)]) == 1)
     inputs = {"d": V.real_array("d", (H, W)), "n": n, "k": k, "s": s}
-    hx.run_body(ctx, body_imaging, inputs, {"H": H, "W": W, "flip": flip}, validate_every=1, tol={"imaging.header_scale": SCALE_TOL})
+    hx.run_body(ctx, body_imaging, inputs, {"H": H, "W": W, "flip": flip}, validate_every=1)
 
 
 BODIES = {"case_2d": body_2d, "case_1d": body_1d, "case_fs": body_fs, "case_derived": body_derived, "case_tiny": body_2d, "case_tiny_1d": body_1d, "case_hdu_index": body_hdu_index, "case_imaging": body_imaging}
@@ -1273,12 +1286,31 @@ def cases(tier):
     return out
 
 
+def _is_scale_key(key):
+    return key.endswith("scale") or key.endswith("pixel_scales")
+
+
+def _rel_equal(a, e, rtol):
+    try:
+        fa = np.asarray(shim.normalise(hx.unwrap(a)), dtype=float).reshape(-1)
+        fe = np.asarray(shim.normalise(hx.unwrap(e)), dtype=float).reshape(-1)
+    except (TypeError, ValueError):
+        return hx.concrete_equal(a, e, 0.0)
+    return fa.shape == fe.shape and bool(np.all(np.abs(fa - fe) <= rtol * np.abs(fe)))
+
+
 def replay(cand):
-    """real astropy, real temporary directory, untouched repository code; only the reported obligation decides"""
+    """real astropy, real temporary directory, untouched repository code; only the reported obligation decides.
+    'identical native values': pixel values are compared exactly (they are only copied / reordered / multiplied by 0 or 1);
+    'the same pixel scale': relative to its magnitude (astropy's cards carry 16 significant digits); the re-normalised Imaging PSF 1e-7."""
     cand = dict(cand)
     cand["case_kwargs"] = {k: v for k, v in cand["case_kwargs"].items() if k != "masks"}   # bodies receive the mask itself
     key = cand["obligation"]
-    # "identical native values": pixel values are compared exactly (they are only copied / reordered / multiplied by 0 or 1); header
-    # scales pass through astropy's 16-digit cards and Imaging re-normalises its PSF, those keep the default tolerance
+    if _is_scale_key(key):
+        actual, expected = BODIES[cand["case_fn"]](hx.to_float_struct(cand["case"]), **cand["case_kwargs"])
+        if key in expected and (key not in actual or not _rel_equal(actual[key], expected[key], SCALE_REL_TOL)):
+            return True, "outputs differ from the reference on the real code: [%r]; %s: actual=%s expected=%s" % (
+                key, key, hx._short(actual.get(key)), hx._short(expected[key]))
+        return False, "real code agrees with the reference on this input (%s)" % key
     exact = key.endswith((".native", ".stored")) or (key.endswith(".read") and cand["case_kwargs"].get("writer") != "imaging")
     return hx.replay_body(BODIES[cand["case_fn"]], cand, key=key, tol=0.0 if exact else 1e-7)
